@@ -258,4 +258,70 @@ for appname in APPS:
         R.check("failed run: error raised, state CANCELLED, results unreadable, clean-up done (no temp file, child or cwd change left)",
                 f"fail {appname} {behaviour}", {"app": appname, "behaviour": behaviour},
                 lambda a=appname, b=behaviour: fail_contract(a, "protein", 3, b))
+def base_join_contract(run_s, timeout):
+    """the generic life cycle of the base class (what web applications and user-defined wrappers inherit): join()
+    polls until the job has finished or the time limit has passed - also a limit of 0 - then the application is
+    JOINED, or CANCELLED with TimeoutError; clean-up runs once and the child is gone"""
+    import subprocess
+    import time
+    from biotite.application import Application
+    from biotite.application.application import TimeoutError as AppTimeoutError
+
+    class SleepApp(Application):
+        def __init__(self):
+            super().__init__()
+            self.cleanups = 0
+            self.proc = None
+
+        def run(self):
+            self.proc = subprocess.Popen(["/bin/sleep", str(run_s)])
+
+        def is_finished(self):
+            return self.proc.poll() is not None
+
+        def wait_interval(self):
+            return 0.01
+
+        def evaluate(self):
+            self.result = self.proc.returncode
+
+        def clean_up(self):
+            self.cleanups += 1
+            if self.proc is not None and self.proc.poll() is None:
+                self.proc.kill()
+                self.proc.wait()
+    app = SleepApp()
+    app.start()
+    t0 = time.time()
+    expect_timeout = timeout is not None and timeout < run_s
+    try:
+        try:
+            app.join() if timeout is None else app.join(timeout=timeout)
+            out = "returned"
+        except AppTimeoutError:
+            out = "TimeoutError"
+        took = time.time() - t0
+        if expect_timeout and (out != "TimeoutError" or took > timeout + 1.0):
+            return f"join(timeout={timeout}) on a job that runs {run_s} s: {out} after {took:.2f} s (TimeoutError at once expected), state {app.get_app_state().name}"
+        if not expect_timeout and out != "returned":
+            return f"join(timeout={timeout}) on a job that runs {run_s} s: {out}"
+        want = AppState.CANCELLED if expect_timeout else AppState.JOINED
+        if app.get_app_state() != want or app.cleanups != 1 or app.proc.poll() is None:
+            return (f"after join(timeout={timeout}): state {app.get_app_state().name} (expected {want.name}), clean_up calls {app.cleanups}, "
+                    f"child still running: {app.proc.poll() is None}")
+        for meth in ("join", "cancel", "start"):
+            try:
+                getattr(app, meth)()
+                return f"{meth}() after the run ended did not raise"
+            except AppStateError:
+                pass
+    finally:
+        if app.proc is not None and app.proc.poll() is None:
+            app.proc.kill()
+    return None
+
+
+for run_s, timeout in ((1.5, 0), (1.5, 0.0), (1.5, 0.05), (0.2, None), (0.2, 5), (0.1, 2.0)):
+    R.check("failed run: error raised, state CANCELLED, results unreadable, clean-up done (no temp file, child or cwd change left)",
+            "base-class join with a time limit", {"job runs (s)": run_s, "timeout": timeout}, lambda run_s=run_s, timeout=timeout: base_join_contract(run_s, timeout))
 R.finish()
